@@ -729,8 +729,11 @@ def gen_specs(rng: random.Random, tier: str, n: int) -> list[dict]:
                 ops.append(["filter", rng.randrange(8), rand_filter(rng)])
             else:
                 ops.append(["config_chain", rng.randrange(8), cfg["n_mazes"]])
-        specs.append({"seed": rng.getrandbits(48), "ops": ops})
+        specs.append({"seed": rng.getrandbits(48), "ops": ops, "slot": len(specs) % 3})
     return specs
+
+
+OPTIMIZE_SLOTS = {"quick": [2], "thorough": [2]}  # one interpreter slot in three runs under `python -O` (asserts stripped)
 
 
 def shrink(spec: dict, result: dict):
